@@ -28,6 +28,7 @@ type c01Exp struct {
 	inflight  int
 	batches   [][]string
 	seen      map[string]int
+	returned  map[string]bool // the ExportSpans call that carried the span has returned
 	shutdowns int
 	closedOK  bool // a Shutdown of the processor returned nil
 	lastErr   []string
@@ -74,6 +75,9 @@ func (e *c01Exp) ExportSpans(ctx context.Context, spans []ReadOnlySpan) error {
 		}
 	}
 	e.inflight--
+	for _, n := range ids {
+		e.returned[n] = true
+	}
 	return err
 }
 
@@ -125,7 +129,7 @@ type c01Scn struct {
 
 func c01Body(cfg c01Cfg, sc c01Scn, res *string) func(x *sched.Exec) {
 	return func(x *sched.Exec) {
-		e := &c01Exp{x: x, maxBatch: cfg.b, faults: cfg.faults, seen: map[string]int{}}
+		e := &c01Exp{x: x, maxBatch: cfg.b, faults: cfg.faults, seen: map[string]int{}, returned: map[string]bool{}}
 		opts := []BatchSpanProcessorOption{WithMaxQueueSize(cfg.q), WithMaxExportBatchSize(cfg.b)}
 		if cfg.blocking {
 			opts = append(opts, WithBlocking())
@@ -153,7 +157,9 @@ func c01Body(cfg c01Cfg, sc c01Scn, res *string) func(x *sched.Exec) {
 				if firstShutdownAt >= 0 && at >= firstShutdownAt {
 					continue
 				}
-				if at < calledAt && strings.HasPrefix(n, "s") && e.seen[n] == 0 {
+				// "handed to the exporter by the time the call returns": the ExportSpans call carrying it is
+				// over (an export still in progress has flushed nothing yet)
+				if at < calledAt && strings.HasPrefix(n, "s") && (e.seen[n] == 0 || !e.returned[n]) {
 					missing = append(missing, n)
 				}
 			}
